@@ -28,9 +28,10 @@ impl TryFrom<f64> for HFloat {
 
     fn try_from(value: f64) -> Result<Self, Self::Error> {
         let hv = f16::from_f64(value);
-        let error = (hv.to_f64() - value).abs();
-        if error < ALLOWED_ERROR {
-            Ok(Self(f16::from_f64(value)))
+        // An immediate must denote the literal itself: a literal that is only close to a half-precision
+        // value (a schedule time such as 2.999995) must not be rounded to it.
+        if hv.to_f64() == value {
+            Ok(Self(hv))
         } else {
             Err(())
         }
